@@ -106,6 +106,13 @@ const RENDER_FAULTS: &[Snip] = &[
     Snip { label: "component-unknown-argument", text: "{{ ⟦<ui.Box v={ 1 } zz={ 2 } />⟧ }}", needs_block: false },
     Snip { label: "component-argument-type", text: "{{ ⟦<ui.Typed n=\"s\" />⟧ }}", needs_block: false },
     Snip { label: "super-without-ancestor", text: "{{ ⟦super()⟧ }}", needs_block: true },
+    Snip { label: "right-operand-of-minus", text: "{{ 10 - ⟦\"a\"⟧ }}", needs_block: false },
+    Snip { label: "right-operand-of-times", text: "{{ 2 * ⟦none⟧ }}", needs_block: false },
+    Snip { label: "right-operand-of-floor-division", text: "{{ 7 // ⟦\"x\"⟧ }}", needs_block: false },
+    Snip { label: "right-operand-of-power", text: "{{ 2 ** ⟦\"x\"⟧ }}", needs_block: false },
+    Snip { label: "right-operand-of-modulo", text: "{{ 7 % ⟦[1]⟧ }}", needs_block: false },
+    Snip { label: "left-operand-of-minus", text: "{{ ⟦\"x\"⟧ - 1 }}", needs_block: false },
+    Snip { label: "right-operand-of-division", text: "{{ 8 / ⟦m⟧ }}", needs_block: false },
     Snip { label: "multi-line-expression", text: "{{ ⟦zz_name +\n\t1⟧ }}", needs_block: false },
     Snip { label: "multi-line-filter-chain", text: "{{ ⟦\"a\"\n  | upper\n  | truncate⟧ }}", needs_block: false },
     Snip { label: "multi-line-component-call", text: "{{ ⟦<ui.Box\n   zz={ 1 }\n/>⟧ }}", needs_block: false },
@@ -156,7 +163,7 @@ const SYNTAX_FAULTS: &[(&str, &str, bool)] = &[
     ("bad-component-attribute", "{{ <ui.Box v=⟦1⟧ /> }}", false),
 ];
 
-const PREFIX_PIECES: &[&str] = &["line\n", "crlf line\r\n", "\tindented\n", "日本語のテキスト\n", "émoji 😀 text ", "  ", "\n", "a{# c #}b\n", "{# multi\nline #}", "text {{ ok }} more\n", "{% if ok %}y{% endif %}", "tab\there ", "\u{301}\u{a0}"];
+const PREFIX_PIECES: &[&str] = &["line\n", "crlf line\r\n", "\tindented\n", "日本語のテキスト\n", "émoji 😀 text ", "  ", "\n", "a{# c #}b\n", "{# multi\nline #}", "text {{ ok }} more\n", "{% if ok %}y{% endif %}", "tab\there ", "\u{301}\u{a0}", "{{ ok\n }}", "{% if ok\n %}y{% endif\n%}", "{{\nok\n}}\n", "{%\tset zq = \"é\n\"\n%}"];
 fn prefix() -> BoxedStrategy<String> {
     prop::collection::vec(prop::sample::select(PREFIX_PIECES), 0..6).prop_map(|v| v.concat()).boxed()
 }
@@ -548,7 +555,7 @@ pub fn check_any_source(name: &str, src: &str, family: &str, l: &mut Local) -> C
 }
 
 pub fn run(rep: &Report) {
-    rep.set_rule("fault injection: a six-template scaffold (parent with a block and a trailing include, child overriding the block with super(), include chain 3 deep, component library, component calls with and without body; includes optionally wrapped in a filter section, a set block or a component-call body) whose templates start with generated multi-line prefixes (LF and CRLF lines, tabs, combining and 4-byte characters, comments, working tags) receives exactly one fault at a recorded byte range in one of eight positions (top level and block of the parent, block of the child, each include depth, component-call body, component definition body): 50 render-fault kinds and 30 syntax-fault kinds. Oracle: error kind; filename = template whose source holds the fault; span within the source on character boundaries with line/column equal to those recomputed from the byte offsets (start and end); render faults: span inside the tag/expression holding the fault and overlapping the faulty range; syntax faults: span never ends before the fault (must touch it for the classes the snapshots pin); Display does not panic, quotes the start line, and names every call site of the chain after it, innermost first; where a note carries a `name:line:col` locus it must point into that call site (wording and layout of the report are not pinned). Plus: span validity (and, for registration errors, template name and start line in the Display text) on every positioned error raised by generated C02 expressions spelled with random newlines and whitespace after a generated prefix, by token soup after a generated prefix, by mutated repository snapshot inputs, and by every prefix (every third in the quick tier) of every repository snapshot input. Non-trivial: fault not on the first line, or after a multi-byte character, or not in the entry template; distinct by (fault, position, prefixes).");
+    rep.set_rule("fault injection: a six-template scaffold (parent with a block and a trailing include, child overriding the block with super(), include chain 3 deep, component library, component calls with and without body; includes optionally wrapped in a filter section, a set block or a component-call body) whose templates start with generated multi-line prefixes (LF and CRLF lines, tabs, combining and 4-byte characters, comments, working tags) receives exactly one fault at a recorded byte range in one of eight positions (top level and block of the parent, block of the child, each include depth, component-call body, component definition body): 57 render-fault kinds and 30 syntax-fault kinds. Oracle: error kind; filename = template whose source holds the fault; span within the source on character boundaries with line/column equal to those recomputed from the byte offsets (start and end); render faults: span inside the tag/expression holding the fault and overlapping the faulty range; syntax faults: span never ends before the fault (must touch it for the classes the snapshots pin); Display does not panic, quotes the start line, and names every call site of the chain after it, innermost first; where a note carries a `name:line:col` locus it must point into that call site (wording and layout of the report are not pinned). Plus: span validity (and, for registration errors, template name and start line in the Display text) on every positioned error raised by generated C02 expressions spelled with random newlines and whitespace after a generated prefix, by token soup after a generated prefix, by mutated repository snapshot inputs, and by every prefix (every third in the quick tier) of every repository snapshot input. Non-trivial: fault not on the first line, or after a multi-byte character, or not in the entry template; distinct by (fault, position, prefixes).");
     rep.assume("render-time errors that the engine reports as plain messages (component recursion limit, render depth limit) are outside `syntax or rendering error`; columns count characters (a tab is one column)");
     for k in rep.known.clone() {
         if let Some(Err(f)) = replay(rep, &k.repro) {
